@@ -203,6 +203,50 @@ macro_rules! multi_battery {
     }};
 }
 
+/// Iterator protocol of every iterator Graph / StableGraph hand out (a function of the state alone: run once per
+/// distinct state through `Machine::check_new`).
+#[macro_export]
+macro_rules! multi_iter_battery {
+    ($g:expr, $Ix:ty, $na:expr) => {{
+        use petgraph::graph::NodeIndex;
+        use petgraph::visit::{EdgeRef, IntoNodeReferences};
+        use petgraph::Direction::{Incoming, Outgoing};
+        let g = $g;
+        let na: &Vec<usize> = $na;
+        let ni = |a: usize| -> NodeIndex<$Ix> { if a == usize::MAX { NodeIndex::end() } else { NodeIndex::new(a) } };
+        (|| -> Result<(), $crate::e1::StepErr> {
+            // every iterator handed out: size_hint / count / last / nth / next_back agree with next()
+            $crate::iter_protocol_de!("node_references", g.node_references(), |(i, w)| (i.index(), *w))?;
+            $crate::iter_protocol_de!("edge_references", g.edge_references(), |r| r.id().index())?;
+            $crate::iter_protocol_de!("node_indices", g.node_indices(), |x| x.index())?;
+            $crate::iter_protocol_de!("edge_indices", g.edge_indices(), |x| x.index())?;
+            $crate::iter_protocol!("node_weights", g.node_weights(), |w| *w)?;
+            $crate::iter_protocol!("edge_weights", g.edge_weights(), |w| *w)?;
+            for dir in [Outgoing, Incoming] {
+                $crate::iter_protocol!("externals", g.externals(dir), |x| x.index())?;
+            }
+            for &a in na {
+                $crate::iter_protocol!("neighbors", g.neighbors(ni(a)), |x| x.index())?;
+                $crate::iter_protocol!("neighbors_undirected", g.neighbors_undirected(ni(a)), |x| x.index())?;
+                $crate::iter_protocol!("edges", g.edges(ni(a)), |r| r.id().index())?;
+                for dir in [Outgoing, Incoming] {
+                    $crate::iter_protocol!("neighbors_directed", g.neighbors_directed(ni(a), dir), |x| x.index())?;
+                    $crate::iter_protocol!("edges_directed", g.edges_directed(ni(a), dir), |r| r.id().index())?;
+                }
+                for &b in na {
+                    $crate::iter_protocol!("edges_connecting", g.edges_connecting(ni(a), ni(b)), |r| r.id().index())?;
+                }
+            }
+            {
+                let mut c = g.clone();
+                $crate::iter_protocol!("node_weights_mut", c.node_weights_mut(), |w| *w)?;
+                $crate::iter_protocol!("edge_weights_mut", c.edge_weights_mut(), |w| *w)?;
+            }
+            Ok(())
+        })()
+    }};
+}
+
 /// Graph-only: raw_nodes / raw_edges / first_edge / next_edge walks agree with the iterators
 #[macro_export]
 macro_rules! graph_raw_battery {
